@@ -55,6 +55,9 @@ theorem encVarintImp_eq (n : Nat) : encVarintImp n = (encVarint n, (encVarint n)
     rw [encVarint_eq_wire, hw, hl]
     simp
 
+/-- bookkeeping only, NOT evidence: `Monero.encVarint` and `Spec.leb128` are the same recursion up to `a + b = b + a`.
+What ties the encoder as written to the reference is `C14_enc_eq_leb128` (about `encVarintImp`: groups / dropLast /
+getLast), and what makes `leb128` more than a name is `C14_leb128_value` + `C14_shortest` + `C14_leb128Len`. -/
 theorem encVarint_eq_leb128 (n : Nat) : encVarint n = Spec.leb128 n := by
   induction n using Nat.strongRecOn with
   | _ n ih =>
